@@ -75,6 +75,7 @@ pub struct Tables {
     /// Is the dump of `deserialize_unchecked(serialize())` identical, with nothing left over?
     pub ser_identical: bool,
     pub ser_len: usize,
+    pub image: Vec<u8>,
 }
 
 pub fn build(e: &Entry, r: &Reference) -> Result<Tables, String> {
@@ -189,6 +190,7 @@ fn build_bw<V: Val>(e: &Entry, r: &Reference) -> Result<Tables, String> {
         pat_value_lits: value_lits::<V>(e),
         ser_identical,
         ser_len: bytes.len(),
+        image: bytes.clone(),
     })
 }
 
@@ -249,5 +251,6 @@ fn build_cw<V: Val>(e: &Entry, r: &Reference) -> Result<Tables, String> {
         pat_value_lits: value_lits::<V>(e),
         ser_identical,
         ser_len: bytes.len(),
+        image: bytes.clone(),
     })
 }
